@@ -32,6 +32,9 @@ pub enum AOp {
     AllocLeak,
     TrackDropInUnwind,
     AllocDeallocInUnwind,
+    /// gives a handle back the way FFI code does: `into_raw`, then `decrement_strong_count` on the pointer (reads the payload
+    /// first, like Drop: the hb witness for the final drop)
+    RawDrop,
 }
 
 #[derive(Clone, Debug, PartialEq, Eq, Hash, Serialize, Deserialize)]
@@ -39,11 +42,15 @@ pub struct AProg {
     pub threads: Vec<Vec<AOp>>,
     /// the payload's destructor fails a user assertion (C06 crash point "inside Drop")
     pub panic_in_drop: bool,
+    /// the children are detached (JoinHandle dropped right after the spawn) and return a value nobody takes; the thread
+    /// drops it on its way out, and its destructor is the first user of a thread-local that owns tracked objects
+    #[serde(default)]
+    pub detached: bool,
 }
 
 impl AProg {
     pub fn s(&self) -> String {
-        format!("{}{}", if self.panic_in_drop { "[payload drop panics] " } else { "" }, self.threads.iter().map(|t| t.iter().map(|o| format!("{:?}", o)).collect::<Vec<_>>().join("; ")).collect::<Vec<_>>().join("  ||  "))
+        format!("{}{}{}", if self.panic_in_drop { "[payload drop panics] " } else { "" }, if self.detached { "[detached children, return value's destructor initialises a thread-local] " } else { "" }, self.threads.iter().map(|t| t.iter().map(|o| format!("{:?}", o)).collect::<Vec<_>>().join("; ")).collect::<Vec<_>>().join("  ||  "))
     }
     pub fn hash(&self) -> u64 {
         fnv(&self.s())
@@ -111,7 +118,7 @@ fn step_obs(p: &AProg, s: &St, t: usize, flag_seen: Option<u8>) -> Option<(St, O
             ns.handles[t] += 1;
             ns.count += 1;
         }
-        AOp::Drop => {
+        AOp::Drop | AOp::RawDrop => {
             ns.handles[t] -= 1;
             ns.count -= 1;
             if ns.count == 0 {
@@ -290,7 +297,13 @@ pub fn gen(rng: &mut Rng, leaks: bool, panic_in_drop: bool, tier: u8) -> AProg {
                 let last = k + 1 == len;
                 let op = match c {
                     0 => Clone,
-                    1 | 2 => Drop,
+                    1 | 2 => {
+                        if rng.chance(1, 5) {
+                            RawDrop
+                        } else {
+                            Drop
+                        }
+                    }
                     3 => Count,
                     4 => GetMut,
                     5 => {
@@ -348,7 +361,7 @@ pub fn gen(rng: &mut Rng, leaks: bool, panic_in_drop: bool, tier: u8) -> AProg {
                 }
                 match op {
                     Clone => held += 1,
-                    Drop | Forget | DropOrForgetIfFlag => {
+                    Drop | RawDrop | Forget | DropOrForgetIfFlag => {
                         // keep the handle used by a pending Inc alive
                         if incs > 0 && held == 1 {
                             continue;
@@ -369,7 +382,7 @@ pub fn gen(rng: &mut Rng, leaks: bool, panic_in_drop: bool, tier: u8) -> AProg {
         }
         threads.push(ops);
     }
-    AProg { threads, panic_in_drop }
+    AProg { threads, panic_in_drop, detached: rng.chance(1, 6) }
 }
 
 /// all 2-thread programs with <= k handle ops per thread over the core alphabet
@@ -423,7 +436,7 @@ pub fn enumerate(k: usize) -> Vec<AProg> {
     for a in &ls {
         for b in &ls {
             if !b.is_empty() {
-                v.push(AProg { threads: vec![a.clone(), b.clone()], panic_in_drop: false });
+                v.push(AProg { threads: vec![a.clone(), b.clone()], panic_in_drop: false, detached: false });
             }
         }
     }
@@ -453,6 +466,23 @@ impl Drop for Payload {
     }
 }
 
+/// owned by a thread-local that only the destructor of a detached child's return value touches
+struct RetTl {
+    _arc: loom::sync::Arc<u32>,
+    _track: loom::alloc::Track<u32>,
+}
+loom::thread_local! {
+    static TL_RET: RetTl = RetTl { _arc: loom::sync::Arc::new(0), _track: loom::alloc::Track::new(0) };
+}
+struct RetGuard(bool);
+impl Drop for RetGuard {
+    fn drop(&mut self) {
+        if self.0 {
+            let _ = TL_RET.try_with(|_| ());
+        }
+    }
+}
+
 #[derive(Default)]
 struct Iter {
     log: Vec<(u8, u8, i64)>,
@@ -475,6 +505,11 @@ fn exec(p: &AProg, t: usize, first: loom::sync::Arc<Payload>, track: loom::alloc
                 hs.last().unwrap().cell.with(|p| unsafe { std::ptr::read_volatile(p) });
                 let h = hs.pop().unwrap();
                 drop(h);
+            }
+            AOp::RawDrop => {
+                hs.last().unwrap().cell.with(|p| unsafe { std::ptr::read_volatile(p) });
+                let raw = Arc::into_raw(hs.pop().unwrap());
+                unsafe { Arc::decrement_strong_count(raw) };
             }
             AOp::Count => res = Arc::strong_count(hs.last().unwrap()) as i64,
             AOp::GetMut => {
@@ -656,7 +691,13 @@ pub fn run_loom(p: &AProg, iter_cap: usize) -> ARun {
             let mut hs = Vec::new();
             for ((t, c), tr) in (1..n).zip(clones).zip(tracks) {
                 let (p3, f3, it4) = (p2.clone(), flag.clone(), it3.clone());
-                hs.push(loom::thread::spawn(move || exec(&p3, t, c, tr, &f3, &it4)));
+                hs.push(loom::thread::spawn(move || {
+                    exec(&p3, t, c, tr, &f3, &it4);
+                    RetGuard(p3.detached)
+                }));
+            }
+            if p2.detached {
+                hs.clear();
             }
             exec(&p2, 0, a, t0, &flag, &it3);
             for h in hs {
@@ -688,7 +729,7 @@ fn core(tier: u8) -> &'static Vec<AProg> {
     let build = |k: usize| {
         use AOp::*;
         let mut v = enumerate(k);
-        let ap = |threads: Vec<Vec<AOp>>| AProg { threads, panic_in_drop: false };
+        let ap = |threads: Vec<Vec<AOp>>| AProg { threads, panic_in_drop: false, detached: false };
         v.push(ap(vec![vec![Count, Drop], vec![Drop]]));
         v.push(ap(vec![vec![TryUnwrap], vec![Drop]]));
         v.push(ap(vec![vec![TryUnwrap], vec![TryUnwrap]]));
@@ -700,6 +741,13 @@ fn core(tier: u8) -> &'static Vec<AProg> {
         v.push(ap(vec![vec![SetFlag], vec![DropOrForgetIfFlag]]));
         v.push(ap(vec![vec![Inc, Count, Dec], vec![Count, Drop]]));
         v.push(ap(vec![vec![RawRound, Count], vec![RawRound, Drop]]));
+        // a reference given back through the raw pointer is an ordinary release: whichever release is last destroys the
+        // payload, after everything the other owners did
+        v.push(ap(vec![vec![RawDrop], vec![Drop]]));
+        v.push(ap(vec![vec![RawDrop], vec![RawDrop]]));
+        v.push(ap(vec![vec![Clone, RawDrop, Count], vec![Count, RawDrop]]));
+        v.push(ap(vec![vec![RawDrop], vec![Clone, Drop, Count, Drop]]));
+        v.push(ap(vec![vec![RawDrop], vec![Drop], vec![RawDrop]]));
         v.push(ap(vec![vec![TrackForget], vec![TrackDrop]]));
         v.push(ap(vec![vec![AllocLeak], vec![AllocDealloc]]));
         // released while the thread unwinds from a panic the program catches itself: not a leak
@@ -710,8 +758,13 @@ fn core(tier: u8) -> &'static Vec<AProg> {
         v.push(ap(vec![vec![GetMut, GetMut, Drop], vec![Drop]]));
         v.push(ap(vec![vec![GetMut, Drop], vec![Drop], vec![Drop]]));
         v.push(ap(vec![vec![Count, GetMut, Drop], vec![ReadPayload, Drop]]));
-        v.push(AProg { threads: vec![vec![Drop], vec![Drop]], panic_in_drop: true });
-        v.push(AProg { threads: vec![vec![Count], vec![Clone, Drop]], panic_in_drop: true });
+        // detached children whose unclaimed return value is the first user of a thread-local owning tracked objects: the
+        // thread destroys it before it is done, nothing leaks
+        for th in [vec![vec![Drop], vec![Drop]], vec![vec![Count], vec![Clone, Drop], vec![Drop]], vec![vec![], vec![TrackDrop]], vec![vec![TryUnwrap], vec![Count]]] {
+            v.push(AProg { threads: th, panic_in_drop: false, detached: true });
+        }
+        v.push(AProg { threads: vec![vec![Drop], vec![Drop]], panic_in_drop: true, detached: false });
+        v.push(AProg { threads: vec![vec![Count], vec![Clone, Drop]], panic_in_drop: true, detached: false });
         v
     };
     if tier == 0 {
